@@ -764,9 +764,16 @@ class ExpectationPropagation:
         # Normalise posteriors so that empirical mutation rate is constant
         likelihoods = self.edge_likelihoods if rescale_segsites \
             else self.sizebiased_likelihoods  # fmt: skip
+        # `mutation_phase` holds the probability of the branch each singleton was
+        # placed on, whereas `reallocate_unphased` expects that of the block's first edge
+        singletons = np.flatnonzero(self.mutation_blocks != tskit.NULL)
+        first_edge = self.block_edges[self.mutation_blocks[singletons], 0]
+        switched = singletons[self.mutation_edges[singletons] != first_edge]
+        mutation_phase = self.mutation_phase.copy()
+        mutation_phase[switched] = 1 - mutation_phase[switched]
         reallocate_unphased(  # correct mutation counts for unphased singletons
             likelihoods,
-            self.mutation_phase,
+            mutation_phase,
             self.mutation_blocks,
             self.block_edges,
         )
